@@ -12,6 +12,8 @@ import r_alloc as AL
 import r_collapse as CO
 import r_bracket as BR
 import r_forward as FW
+import r_flatstack as FS
+import r_codec as CD
 
 TRUSTED = [
     "rustc nightly 1.97 type checker, borrow checker and MIR construction (-Zmir-opt-level=0)",
@@ -37,7 +39,13 @@ def only(rule, names):
 
 CS_ONLY = {"CollapseSequence"}
 
+FS_ONLY = {"FlatStack", "Iter"}
+
+CODEC_ONLY = {"CodecRegion"}
+
 PROPS = {
+    "C07": {"rules": [CD.r_literal_guard, CD.r_emptiness, CD.r_tags, CD.r_bitmap, only(L.r_reset, CODEC_ONLY), only(L.r_fresh, CODEC_ONLY)], "explanation": "x", "decided": [], "not_decided": []},
+    "C03": {"rules": [FS.r_pairing, FS.r_delegation, only(L.r_reset, {"FlatStack"}), only(L.r_clone, FS_ONLY), B.r_index_failstop, B.r_bound_stride_sites], "explanation": "x", "decided": [], "not_decided": []},
     "C20": {"rules": [FW.r_forward, FW.r_sibling, FW.r_pushstorage], "explanation": "x", "decided": [], "not_decided": []},
     "C01": {"rules": [BR.r_bracket, BR.r_reader_writer, BR.r_fanout, BR.r_columns], "explanation": "x", "decided": [], "not_decided": []},
     "C11": {"rules": [CO.r_collapse_push, only(L.r_reset, CS_ONLY), only(L.r_fresh, CS_ONLY), only(L.r_clone, CS_ONLY), only(SD.r_serde, CS_ONLY)], "explanation": "x", "decided": [], "not_decided": []},
